@@ -165,9 +165,10 @@ class Blockwise(ArrayExpr):
             if ind is None or not isinstance(arg, ArrayExpr):
                 continue
             # a duplicated (arg, ind) pair (x + x) is one dependency per task
-            if (arg._name, ind) in seen:
+            # (index patterns may be lists, e.g. from tensordot)
+            if (arg._name, tuple(ind)) in seen:
                 continue
-            seen.add((arg._name, ind))
+            seen.add((arg._name, tuple(ind)))
             arg_numblocks = dict(zip(ind, arg.numblocks))
             fanout = 1.0
             for i, n in out_numblocks.items():
